@@ -200,6 +200,18 @@ pub fn conc_core(tier: Tier, base: &[&'static str]) -> Vec<Scenario> {
     v
 }
 
+/// The Lifo queue mode under the core oracles: reachability to closure
+/// (quick: the two smallest shapes) and one thread-level scenario.
+pub fn lifo_scenarios(tier: Tier, base: &[&'static str]) -> Vec<Scenario> {
+    let b = bounds(tier);
+    let mut v: Vec<Scenario> = reach_scenarios_mode(tier, base, false, false, true).into_iter().filter(|s| b.thorough || s.name.contains("/ms1/tasks2/idle0/") || s.name.contains("/ms2/tasks2/idle1/")).collect();
+    let mut c = faulty_cfg(1);
+    c.lifo = true;
+    let sc = ConcScenario::new(c, vec![vec![get(), Op::Release], vec![get(), Op::Release], vec![get(), Op::Release]], base);
+    v.push(conc_paid("lifo/three-getters/ms1", "Lifo pool: three getters on one slot with every fault", 2, if b.thorough { 2 } else { 1 }, sc));
+    v
+}
+
 pub fn seq_core(tier: Tier, base: &[&'static str]) -> Vec<Scenario> {
     let b = bounds(tier);
     let mut v = Vec::new();
@@ -879,12 +891,15 @@ pub fn spec_for(prop: &str, tier: Tier) -> Option<CheckSpec> {
             let mut v = conc_core(tier, &["C01"]);
             v.extend(builder_scenarios(tier, &["C01"]));
             v.extend(reach_scenarios(tier, &["C01"], false, false));
+            // "both queue modes"
+            v.extend(lifo_scenarios(tier, &["C01"]));
             v
         }
         "C02" => {
             let mut v = conc_core(tier, &["C02"]);
             v.extend(seq_core(tier, &["C02"]));
             v.extend(reach_scenarios(tier, &["C02"], false, false));
+            v.extend(lifo_scenarios(tier, &["C02"]));
             // "... or the pool is closed": waiters must be completed by close()
             v.extend(c06_scenarios(tier).into_iter().filter(|s| s.name.contains("close-histories") || s.name.contains("close-vs-waiter") || s.name.contains("resize-to-zero")));
             v.extend(reach_scenarios(tier, &["C02"], false, true));
